@@ -260,7 +260,8 @@ def generated_set(seed, i):
 
 ZOO_EXPR = ["7", "x", "cast y", "cast y as i32", "y as i32", "|a|", "a[1]", "s.m", "&x", "zf(x)", "-x", "!b", "[1, 2]",
             "Zs { m: 2, arr: [0, 0, 0] }", '"text"', "'c'", "true", "x + y", "(x)", "a", "s", "p", "0xff", "1u64",
-            "x << y", "x & 1", "cast y == cast z", "s.arr[1]", "|:Zs|", "zf(cast y)", "0x1_00_00", "0b1_0_1u8 + nope"]
+            "x << y", "x & 1", "cast y == cast z", "s.arr[1]", "|:Zs|", "zf(cast y)", "0x1_00_00", "0b1_0_1u8 + nope",
+            "[true, 1]", "[1u8, 1u16]", '["ab", "cde"]']
 ZOO_CTX = [
     "if %s == 1\n\t{\n\t\tx = 2;\n\t}",
     "if %s == cast b\n\t{\n\t\tx = 2;\n\t}",
@@ -285,6 +286,9 @@ ZOO_CTX = [
     "var q: &i32 = &x; q = &%s;",
     "var q: &i32 = &x; &q = %s;",
     "var q: &&i32 = &&p; &&q = &%s;",
+    "var v = %s;",
+    "var n = 0x1; n = &%s;",
+    "var v: [3]i32 = [1, 2, %s];",
     # two-column characters in front of the label, on the same line
     'var w = "\u65e5\u672c\u8a9e"; var v: bool = %s;',
     'var w = "\U0001f600 \u5b57"; var v = %s.nothing;',
@@ -728,7 +732,8 @@ def evaluate_set(s, wd, cfg, rng, stats):
     # a failing compilation says why in a diagnostic of its own: a code from the catalogue
     # (not a bare message of a library underneath, without code or location)
     # (the tool's own top-level `Error: ...` lines - unreadable input and the like - are C18's business)
-    if not panicked and base_r.rc == 1 and not base_heads and not base_r.timeout and b"Error: " not in base_r.err:
+    if not panicked and base_r.rc == 1 and not base_heads and not base_r.timeout and \
+            (b"Error: " not in base_r.err or b"Error: compilation failed" in base_r.err):
         viol.append(("failure_without_code", "exit 1 and no diagnostic with a code on stderr: %r" % base_r.err.decode(errors="replace")[-300:], {}))
     # rendering must find every source it quotes
     for r in [x[3] for x in obs[:1]]:
